@@ -312,6 +312,7 @@ var xLeaves = []xLeaf{
 	// the pool above is enumerated exhaustively; the rest joins in random trees
 	{src: "007", val: 7}, {src: "3.", val: 3.0}, {src: `""`, val: ""}, {src: "m1", val: -1}, {src: "maxi", val: math.MaxInt},
 	{src: "f0", val: 0.0}, {src: "fneg", val: -2.5}, {src: "nope", unknown: true}, {src: `"a.*"`, val: "a.*"}, {src: `"("`, val: "("},
+	{src: "fbig", val: 1.5e21}, {src: "fsmall", val: 0.00001}, {src: "1000000.0", val: 1000000.0}, {src: "fmil", val: 2.5e6},
 }
 
 const xCore = 12
@@ -327,6 +328,9 @@ func c06Ctx(env *c06Env) *plush.Context {
 	ctx.Set("maxi", math.MaxInt)
 	ctx.Set("f0", 0.0)
 	ctx.Set("fneg", -2.5)
+	ctx.Set("fbig", 1.5e21)
+	ctx.Set("fsmall", 0.00001)
+	ctx.Set("fmil", 2.5e6)
 	ctx.Set("val", func(id string, v interface{}) interface{} {
 		env.trace = append(env.trace, id)
 		return v
